@@ -647,7 +647,11 @@ var libCell = func() *boc.Cell {
 //
 //	0: tlb.Unmarshal (Decoder{}), 1: tlb.NewDecoder(), 2: NewDecoder with a library resolver that finds a small cell,
 //	3: resolver that reports an error
-func decodeOne(t reflect.Type, variant int, tab []h.Row) (res string) {
+func decodeOne(t reflect.Type, variant int, tab []h.Row) string {
+	return retrySlow(func() string { return decodeOneOnce(t, variant, tab) })
+}
+
+func decodeOneOnce(t reflect.Type, variant int, tab []h.Row) (res string) {
 	cells := h.BuildCells(tab)
 	_, size := unfolded(tab)
 	ncells, _ := unfolded(tab)
@@ -825,7 +829,11 @@ func tlbStream(t reflect.Type, stream string, seed int64, n int) [][]h.Row {
 
 // ---------------------------------------------------------------------------------------- abi message decoders
 
-func goABIDec(a []string) (res string) {
+func goABIDec(a []string) string {
+	return retrySlow(func() string { return goABIDecOnce(a) })
+}
+
+func goABIDecOnce(a []string) (res string) {
 	tab := h.ParseTable(a[1])
 	cells := h.BuildCells(tab)
 	ncells, size := unfolded(tab)
@@ -1140,11 +1148,12 @@ func (gc *genCtx) genTLB() {
 }
 
 var tlbExec = map[string]h.ExecFn{
-	"go.tlb.fuzz":     goTLBFuzz,
-	"go.tlb.one":      goTLBOne,
-	"go.abi.dec":      goABIDec,
-	"go.tlb.flags":    goTLBFlags,
-	"go.tlb.covseeds": goTLBCovSeeds,
+	"go.tlb.fuzz":      goTLBFuzz,
+	"go.tlb.one":       goTLBOne,
+	"go.abi.dec":       goABIDec,
+	"go.tlb.flags":     goTLBFlags,
+	"go.tlb.flagsreal": goTLBFlagsReal,
+	"go.tlb.covseeds":  goTLBCovSeeds,
 	// modelled custom decoders (compared with lean/TongoModel/TlbRead.lean)
 	"tlb.label":      exTLBLabel,
 	"tlb.countleafs": exTLBCountLeafs,
